@@ -62,6 +62,27 @@ def run(ctx):
                 r.ok(rule, 'verify:Good', 'Good only on the Ok edge of asymmetric_verify_signature', loc=b.loc)
             else:
                 r.fail(rule, 'verify:Good', 'verify_signature_data returns Good without the signature verification having succeeded', loc=b.loc)
+    # the helper both sides share: the buffer is the whole `data` followed by the whole `nonce`, nothing else
+    hb = db.body('crypto::concat_data_and_nonce')
+    if hb is None:
+        r.lost(rule, 'concat:helper', 'crypto::concat_data_and_nonce not found')
+    else:
+        Fh = ctx.facts(hb)
+        order = {b_: i for i, b_ in enumerate(sorted(hb.reachable_blocks(0)))}
+        ext = [c for c in hb.calls() if re.search(r'Vec::(extend_from_slice|extend|append|push|insert|truncate|drain|split_off|resize)$', c.callee)]
+        ext.sort(key=lambda c: min(i for i, b_ in enumerate(hb.blocks) if i == c.bb))
+        args = [(c.callee.rsplit('::', 1)[-1], fmt_sym(hb, Fh.sym_operand(c.args[1])) if len(c.args) > 1 else '') for c in ext]
+        dp = hb.local_by_name('data'); np_ = hb.local_by_name('nonce')
+        want = [('extend_from_slice', '&(*data(_%d))' % dp[0] if dp else '?'), ('extend_from_slice', '&(*nonce(_%d))' % np_[0] if np_ else '?')]
+        # extend_from_slice(buffer, data): data is already a reference parameter, so the operand is the parameter itself
+        norm = [(k, a.replace('&(*', '').replace('))', ')')) for k, a in args]
+        wantn = [(k, a.replace('&(*', '').replace('))', ')')) for k, a in want]
+        others = [c.callee for c in hb.calls() if not re.search(r'Vec::(with_capacity|extend_from_slice)$|slice.*::len$|::len$', c.callee)]
+        if norm == wantn and not others and hb.dominates(ext[0].bb, ext[1].bb):
+            r.ok(rule, 'concat:helper', 'concat_data_and_nonce = data ++ nonce, both whole', loc=hb.loc)
+        else:
+            r.fail(rule, 'concat:helper', 'concat_data_and_nonce does not append exactly the whole data and then the whole nonce (appends %s, other calls %s): part of the '
+                   'certificate or nonce is not covered by the signature' % (args, [o.rsplit('::', 1)[-1] for o in others]), loc=hb.loc)
     # the verdict variable of asymmetric_verify_signature is the primitive's boolean on every arm
     avb = db.body(SP + 'asymmetric_verify_signature')
     if avb is not None:
